@@ -205,6 +205,23 @@ theorem compiled_program_safe_within_limits (s : Bytes) (hs : ∀ b ∈ s, b ≠
   · exact Or.inr h
   · exact absurd h (Re.search_within_limits s hs hb hne text nmatches hlen hdig hw)
 
+/-- **The accepted tree fits the node buffer and bounds the compiler's recursion**: the tree of an accepted
+    pattern has at most `2 * strlen` nodes (the cells `cregex_parse` allocated), so the recursion of
+    `count_instructions`, `node_is_anchored` and `compile_context` (once per level of the tree; concatenations
+    are right-nested, so the height grows with the length) is at most `2 * strlen` deep (+3 for the nodes
+    `compile_node_with_program` puts on top). Whether that many C frames fit the machine stack is not a
+    statement about the algorithm: open finding C17-RE-DEPTH. -/
+theorem reparse_tree_bounded (s : Bytes) (hs : ∀ b ∈ s, b ≠ 0) (hne : s ≠ []) (root : Re.Node)
+    (h : Re.parse (s ++ [0]) = .ok root) : root.size ≤ 2 * s.length ∧ root.height ≤ 2 * s.length :=
+  Re.parse_size s hs hne root h
+
+/-- the model exhibits the two open `int` overflows on their witnesses: `a{99999999999}` (parse_interval) and
+    the tree of `((a{60000}){60000})` (count_instructions) -/
+theorem refront_overflow_witnesses :
+    Re.parse [97, 123, 57, 57, 57, 57, 57, 57, 57, 57, 57, 57, 57, 125, 0] = .ub ∧
+    ∀ pat, Re.compile pat (.cap (.quant 60000 (some 60000) true (.cap (.quant 60000 (some 60000) true (.chr 97))))) = .ub :=
+  ⟨Re.parse_count_overflow, Re.compile_count_overflow⟩
+
 /-- non-vacuity: the limits hold for an ordinary pattern (`a|b+`): no long digit run, a tree of weight 8 -/
 example : ∀ i, Re.digitRun [97, 124, 98, 43, 0] i ≤ 9 := by
   intro i; have := Re.digitRun_le [97, 124, 98, 43, 0] i; simp at this; omega
